@@ -1,5 +1,16 @@
 use vstd::prelude::*;
+use vstd::arithmetic::div_mod::*;
 verus! {
+
+pub proof fn lemma_wsub(x: u64, y: u64, w: u64)
+    requires w as int == (if x as int - y as int >= 0 { x as int - y as int } else { x as int - y as int + 0x1_0000_0000_0000_0000 })
+    ensures w == sub(x, y)
+{
+    let s = sub(x, y);
+    assert(x >= y ==> s == (x - y) as u64) by (bit_vector) requires s == sub(x, y);
+    assert(x < y ==> s == (0xffff_ffff_ffff_ffffu64 - (y - x) as u64 + 1) as u64) by (bit_vector) requires s == sub(x, y);
+}
+
 
 pub type Word = u64;
 pub type WideWord = u128;
@@ -28,6 +39,8 @@ impl ConstChoice {
         ensures r.wf(), r.t() == (x < y)
     {
         // See "Hacker's Delight" 2nd ed, section 2-12 (Comparison predicates)
+        let ghost w = x.wrapping_sub(y);
+        proof { lemma_wsub(x, y, w); }
         let bit = (((!x) & y) | (((!x) | y) & (x.wrapping_sub(y)))) >> (Word::BITS - 1);
         assert(bit == 0 || bit == 1) by (bit_vector) requires bit == ((((!x) & y) | (((!x) | y) & (sub(x,y)))) >> 63);
         assert((bit == 1) == (x < y)) by (bit_vector) requires bit == ((((!x) & y) | (((!x) | y) & (sub(x,y)))) >> 63);
@@ -38,6 +51,8 @@ impl ConstChoice {
     pub const fn from_word_le(x: Word, y: Word) -> (r: Self)
         ensures r.wf(), r.t() == (x <= y)
     {
+        let ghost w = y.wrapping_sub(x);
+        proof { lemma_wsub(y, x, w); }
         let bit = (((!x) | y) & ((x ^ y) | !(y.wrapping_sub(x)))) >> (Word::BITS - 1);
         assert(bit == 0 || bit == 1) by (bit_vector) requires bit == ((((!x) | y) & ((x ^ y) | !(sub(y,x)))) >> 63);
         assert((bit == 1) == (x <= y)) by (bit_vector) requires bit == ((((!x) | y) & ((x ^ y) | !(sub(y,x)))) >> 63);
@@ -167,6 +182,7 @@ pub const fn div2by1(u1: Word, u0: Word, reciprocal: &Reciprocal) -> (out: (Word
 {
     let d = reciprocal.divisor_normalized;
 
+    proof { assert((1u64 << 63) == 0x8000_0000_0000_0000u64) by (bit_vector); assert(B() / 2 == 0x8000_0000_0000_0000int); }
     debug_assert!(d >= (1 << (Word::BITS - 1)));
     debug_assert!(u1 < d);
 
@@ -180,6 +196,7 @@ pub const fn div2by1(u1: Word, u0: Word, reciprocal: &Reciprocal) -> (out: (Word
     let ghost q1a = q1; 
     let (q1, q0) = addhilo(q1, q0, u1, u0);
     proof {
+        assert(u1 as int * B() + u0 as int >= 0);
         let b = B(); let v = reciprocal.reciprocal as int;
         assert(q1 as int * b + q0 as int == (b + v) * (u1 as int) + u0 as int) by (nonlinear_arith)
             requires q1 as int * b + q0 as int == (v * (u1 as int)) + (u1 as int * b + u0 as int);
@@ -191,12 +208,53 @@ pub const fn div2by1(u1: Word, u0: Word, reciprocal: &Reciprocal) -> (out: (Word
     let r = u0.wrapping_sub(q1.wrapping_mul(d));
     proof {
         // r == rt mod B
-        assume(r as int == if rt >= 0 { rt } else { rt + B() });
+        let b = B(); let a = (q1p + 1) * d as int; let u0i = u0 as int; let u1i = u1 as int; let di = d as int;
+        assert(q1 as int == (q1p + 1) % b);
+        let m = (q1 as int * di) % b;
+        lemma_mul_mod_noop_left(q1p + 1, di, b);
+        assert(m == a % b);
+        assert(r as int == (u0i - m) % b) by {
+            if u0i - m >= 0 { lemma_small_mod((u0i - m) as nat, b as nat); }
+            else { lemma_mod_add_multiples_vanish(u0i - m, b); lemma_small_mod((u0i - m + b) as nat, b as nat); }
+        }
+        lemma_sub_mod_noop_right(u0i, a, b);
+        assert((u0i - m) % b == (u0i - a) % b);
+        lemma_mod_multiples_vanish(u1i, u0i - a, b);
+        assert(b * u1i + (u0i - a) == rt) by (nonlinear_arith) requires rt == u1i * b + u0i - a;
+        assert(rt % b == (u0i - a) % b);
+        assert(rt < b);
+        if rt >= 0 { lemma_small_mod(rt as nat, b as nat); }
+        else { lemma_mod_add_multiples_vanish(rt, b); lemma_small_mod((rt + b) as nat, b as nat); }
+        assert(r as int == if rt >= 0 { rt } else { rt + b });
     }
 
+    let ghost r0 = r; let ghost q10 = q1;
     let r_gt_q0 = ConstChoice::from_word_lt(q0, r);
     let q1 = r_gt_q0.select_word(q1, q1.wrapping_sub(1));
     let r = r_gt_q0.select_word(r, r.wrapping_add(d));
+    proof {
+        let b = B(); let di = d as int; let uu = u1 as int * b + u0 as int;
+        assert((q1p + 1) * di == q1p * di + di) by (nonlinear_arith);
+        assert((q1p + 2) * di == q1p * di + 2 * di) by (nonlinear_arith);
+        assert(rt == uu - (q1p + 1) * di);
+        assert(q10 as int == (q1p + 1) % b);
+        if rt >= 0 {
+            // (q1p+1)*d <= u < d*B  =>  q1p + 1 < B
+            assert(q1p + 1 < b) by (nonlinear_arith) requires (q1p + 1) * di <= uu, uu < di * b, di > 0,
+                uu == u1 as int * b + u0 as int;
+            assert(uu < di * b) by (nonlinear_arith) requires uu == u1 as int * b + u0 as int, (u1 as int) <= di - 1, (u0 as int) < b;
+            lemma_small_mod((q1p + 1) as nat, b as nat);
+        } else {
+            if q1p + 1 == b { lemma_mod_self_0(b); } else { lemma_small_mod((q1p + 1) as nat, b as nat); }
+        }
+        // state after first correction: q1*d + r == uu, 0 <= r < 2d (as ints), and r >= d ==> q1 < MAX
+        assert(q1 as int * di + r as int == uu) by (nonlinear_arith)
+            requires (q1 as int == q1p && r as int == rt + di) || (q1 as int == q1p + 1 && r as int == rt),
+                rt == uu - (q1p + 1) * di, (q1p + 1) * di == q1p * di + di;
+        assert(uu < di * b) by (nonlinear_arith) requires uu == u1 as int * b + u0 as int, (u1 as int) <= di - 1, (u0 as int) < b;
+        let q1i = q1 as int; let ri = r as int;
+        assert(ri >= di ==> q1i < b - 1) by (nonlinear_arith) requires q1i * di + ri == uu, uu < di * b, di > 0;
+    }
 
     // If this was a normal `if`, we wouldn't need wrapping ops, because there would be no overflow.
     // But since we calculate both results either way, we have to wrap.
@@ -207,8 +265,8 @@ pub const fn div2by1(u1: Word, u0: Word, reciprocal: &Reciprocal) -> (out: (Word
     let r = r_ge_d.select_word(r, r.wrapping_sub(d));
 
     proof {
-        assert(q1 as int * reciprocal.divisor_normalized as int + r as int == u1 as int * B() + u0 as int) by { admit(); }
-        assert(r < d) by {admit();}
+        assert(q1 as int * d as int + r as int == u1 as int * B() + u0 as int);
+        assert(r < d);
     }
     (q1, r)
 }
